@@ -3,6 +3,7 @@ package main
 // C17: Iterators are bidirectional cursors over an immutable snapshot.
 
 import (
+	"math"
 	age "github.com/craterdog/go-collection-framework/v4/agent"
 	col "github.com/craterdog/go-collection-framework/v4/collection"
 )
@@ -219,6 +220,10 @@ func allMoves(size int) []iterMove {
 	for _, op := range iterOps {
 		if op == "toSlot" {
 			for k := -size - 2; k <= size+2; k++ {
+				ms = append(ms, iterMove{op, k})
+			}
+			// the ends of Go's int range: clamping must not depend on arithmetic that wraps around
+			for _, k := range []int{math.MinInt, math.MinInt + 1, -(1 << 62), 1 << 62, math.MaxInt - 1, math.MaxInt} {
 				ms = append(ms, iterMove{op, k})
 			}
 		} else {
